@@ -142,7 +142,12 @@ Section Containers.
   (* 2-D table: instance x (variable-major flattened values) *)
   Definition tab2 := list (list V).
 
-  Inductive rep := RN (x : nested) | RA (x : arr3) | RM (x : mi) | RL (x : long) | RT (x : tab2).
+  (* RN x: a nested frame with the default row index 0..n-1;  RNI idx x: one whose rows (instances)
+     carry the labels idx.  Every conversion that BUILDS a nested frame returns the default index;
+     the labels of an input frame are read by nested -> multi-index / long (they become the
+     instance level / the case ids) and otherwise ignored (instances are taken by position). *)
+  Inductive rep := RN (x : nested) | RA (x : arr3) | RM (x : mi) | RL (x : long) | RT (x : tab2)
+                 | RNI (idx : list Z) (x : nested).
 
   Definition shape_cols (X : arr3) : nat := length (hd [] X).
   Definition shape_time (X : arr3) : nat := length (hd [] (hd [] X)).
@@ -171,6 +176,11 @@ Section Containers.
   Definition nested_to_mi (x : nested) : mi :=
     mkM (n_cols x)
         (flat_map (fun ii => block_rows (length (hd [] (snd ii))) ii) (enum (n_rows x))).
+
+  (* the same with explicit instance labels: X.index.unique() in order of appearance, X.loc[label] *)
+  Definition nested_to_mi_idx (idx : list Z) (x : nested) : mi :=
+    mkM (n_cols x)
+        (flat_map (fun ii => block_rows (length (hd [] (snd ii))) ii) (combine idx (n_rows x))).
 
   Definition r_inst (r : (Z * Z) * list V) : Z := fst (fst r).
   Definition r_time (r : (Z * Z) * list V) : Z := snd (fst r).
@@ -241,6 +251,7 @@ Section Containers.
     else match r with
          | RA X => Ok (if to_pd then RN (a3_to_nested None KSeries X) else RA X)
          | RN x => Ok (if to_np then RA (nested_to_3d x) else RN x)
+         | RNI idx x => Ok (if to_np then RA (nested_to_3d x) else RNI idx x)
          | _ => Err     (* a 2-D array, or a DataFrame without series-valued cells *)
          end.
 
@@ -267,6 +278,10 @@ Section Containers.
     | E_N_T, RN x => Ok (RT (nested_to_2d x))
     | E_A_T, RA X => Ok (RT (a3_to_2d X))
     | E_T_N k, RT t => Ok (RN (tab_to_nested k t))
+    | E_N_A, RNI _ x => Ok (RA (nested_to_3d x))
+    | E_N_M, RNI idx x => Ok (RM (nested_to_mi_idx idx x))
+    | E_N_L, RNI idx x => Ok (RL (mi_melt (nested_to_mi_idx idx x)))
+    | E_N_T, RNI _ x => Ok (RT (nested_to_2d x))
     | E_CheckX a b, _ => check_X a b r
     | _, _ => Err
     end.
